@@ -11,7 +11,7 @@ using namespace sys;
 namespace c18 {
 
 struct Case {
-    int kind;      // 0 opcode sweep, 1 control flow, 2 mmio write + run, 3 dma/ahbm, 4 opcode x shift-amount register, 5 ar/arp word write + opcode
+    int kind;      // 0 opcode sweep, 1 control flow, 2 mmio write + run, 3 dma/ahbm, 4 opcode x shift-amount register, 5 ar/arp word write + opcode, 6 audio port script
     u32 a, b, c, d; // parameters
 };
 inline std::string Ser(const Case& k) {
@@ -156,6 +156,26 @@ struct Runner {
                 m.teakra->Run(3);
             }, why);
         }
+        case 6: { // audio port a with b samples queued, transmitter enable c, main line d (0 idle loop, 1 busy loop), three sample periods
+            site = Fmt("audio-port-%u", k.a);
+            return Guard([&]() {
+                Fresh();
+                m.regs() = states[0];
+                m.regs().pc = 0x1000;
+                if (k.d == 0) {
+                    m.SetProg(0x1000, 0x57F0); // brr -1
+                } else {
+                    m.SetProg(0x1000, 0x67D0), m.SetProg(0x1001, 0x57E0); // inc a0 ; brr -2
+                }
+                const u16 base = (u16)(0x280 + 0x80 * (k.a & 1));
+                for (u32 i = 0; i < k.b; ++i)
+                    m.teakra->MMIOWrite((u16)(base + 0x46), (u16)(0x100 + i));
+                m.teakra->MMIOWrite((u16)(base + 0x3E), (u16)(k.c ? 0x8000 : 0));
+                m.teakra->Run(3 * 4096 + 50);
+                m.teakra->MMIOWrite((u16)(base + 0x4A), 1); // flush
+                m.teakra->Run(10);
+            }, why);
+        }
         case 1: { // control-flow instruction form (a) to target class (b), then 4 more cycles
             static const u32 targets[] = {0x00000, 0x00001, 0x3FFFE, 0x3FFFF, 0x20000};
             u32 t = targets[k.b % 5];
@@ -265,6 +285,12 @@ inline std::vector<Case> Cases(bool full_dma) {
         for (u32 w = 0; w < 6; ++w)
             for (u32 val : {0xFFFFu, 0x8421u})
                 v.push_back({5, op, val, w, 0});
+    // (a4) both audio ports (only the first one ever has a listener) x queue fills 0..17 x enable x idle / busy main line, over three sample periods
+    for (u32 port = 0; port < 2; ++port)
+        for (u32 fill = 0; fill <= 17; ++fill)
+            for (u32 en = 0; en < 2; ++en)
+                for (u32 mainl = 0; mainl < 2; ++mainl)
+                    v.push_back({6, port, fill, en, mainl});
     // (b) control flow to the edges
     for (u32 form = 0; form < 10; ++form)
         for (u32 t = 0; t < 5; ++t)
@@ -391,7 +417,12 @@ int main(int argc, char** argv) {
                 std::memset(sh, 0, sizeof(Shared));
                 std::string errf = Fmt("%s/err%d", dir.c_str(), idx);
                 std::set<std::string> oob_seen;
+                int deaths = 0, hangs = 0;
                 while (next < cases.size()) {
+                    if (deaths >= 25 || hangs >= 3) { // a defect that kills a large share of the cases is established: the rest of the shard is not worth hours of respawns
+                        blk.capped = 1;
+                        break;
+                    }
                     sh->finished = 0;
                     sh->n_oob = 0;
                     std::fflush(nullptr);
@@ -460,6 +491,7 @@ int main(int argc, char** argv) {
                         std::string site = k.kind == 3 ? Fmt("dma:reg+0x%03X", k.a) : k.kind == 2 ? Fmt("mmio:+0x%03X", k.a) : k.kind == 1 ? Fmt("control-flow:form%u", k.a) : "opcode";
                         local.AddViolation("c18:hang:" + site, Fmt("case %s did not finish within %.0f s (the emulator does not return)", Ser(k).c_str(), case_limit_s), Ser(k));
                         ++sh->counts[4];
+                        ++hangs;
                         next = sh->current + cnt;
                         continue;
                     }
@@ -469,6 +501,7 @@ int main(int argc, char** argv) {
                     std::string what = WIFSIGNALED(st) ? Fmt("signal %d", WTERMSIG(st)) : Fmt("exit %d", WEXITSTATUS(st));
                     local.AddViolation("c18:sanitizer:" + KeyFromSite(site), Fmt("case %s ended the process (%s): %s", Ser(k).c_str(), what.c_str(), site.c_str()), Ser(k));
                     ++sh->counts[4];
+                    ++deaths;
                     next = sh->current + cnt;
                 }
                 unlink(errf.c_str());
@@ -493,7 +526,7 @@ int main(int argc, char** argv) {
     res.rule = "every case of four families is executed on the real machine built with AddressSanitizer + UBSan + libstdc++ assertions, with the memory "
                "observer rejecting any DSP-memory word address >= 0x40000 before the access; (a) all 65536 opcodes x second words x 4 reachable register states x "
                "pc at 0x1000 / 0x3FFFE / 0x3FFFF / with prpage=1, 3 cycles each; all 65536 opcodes x 15 boundary values of the shift-amount register (+-39..41, +-63..65, "
-               "+-32, 0x7FFF..0x8001) with both shift modes and accumulator signs at +-40; all 65536 opcodes after each of the six ar/arp words has been written with 0xFFFF / 0x8421 (reserved bits set); (b) 10 control-flow forms x 5 edge targets x 4 states, 5 cycles; (c) every one of "
+               "+-32, 0x7FFF..0x8001) with both shift modes and accumulator signs at +-40; all 65536 opcodes after each of the six ar/arp words has been written with 0xFFFF / 0x8421 (reserved bits set); both audio ports with 0..17 words queued, enabled or not, under an idle and a busy main line for three sample periods; (b) 10 control-flow forms x 5 edge targets x 4 states, 5 cycles; (c) every one of "
                "the 2048 MMIO offsets x 22 values x both paths, all DMA registers read back, 4 cycles; (d) DMA/AHBM configurations with extreme register values, "
                "address high words {0,1,2,FFFF}^2, spaces, modes, AHBM unit/burst, then a start; acceptable outcomes: return, UnimplementedException, deliberate "
                "assertion; distinct = acceptable outcome classes + violation classes";
